@@ -1,6 +1,6 @@
 (* Props/C16.v — every output format renders the diagnostics faithfully, one
    per line.  Only statements; every proof is [exact <lemma>]. *)
-From AL Require Import Base.Str Out.Render Out.RenderProofs.
+From AL Require Import Base.Str Out.Render Out.RenderProofs Out.Matcher Out.MatcherProofs Out.Messages Out.MessagesProofs.
 From Coq Require Import ZArith.
 
 (* the header is file:line:col: message [kind], and PrettyPrint's pieces make up exactly it *)
@@ -62,3 +62,34 @@ Theorem C16_indicator_caret : forall rw (sw : bytes -> nat) line col,
   exists uw, get_indicator rw sw line col = Ok (repeat " "%char (Z.to_nat (col - 1)) ++ ["^"%char] ++ repeat "~"%char uw).
 Proof. exact indicator_caret. Qed.
 Print Assumptions C16_indicator_caret.
+
+(* the shipped problem-matcher pattern parses the header back to the same file,
+   line, column, message and kind — when the file name has no ':' and the
+   message no " [" (and no field a line feed) *)
+Theorem C16_matcher_roundtrip : forall e,
+  file_ok (e_file e) -> msg_ok (e_msg e) -> kind_ok (e_kind e) ->
+  (0 <= e_line e)%Z -> (0 <= e_col e)%Z ->
+  matcher (error_string e) = Some (e_file e, decz (e_line e), decz (e_col e), e_msg e, e_kind e).
+Proof. exact matcher_roundtrip. Qed.
+Print Assumptions C16_matcher_roundtrip.
+
+(* the full statement (any one-line message) is false: known finding matcher-space-bracket *)
+Theorem C16_matcher_roundtrip_full_refuted : exists e,
+  file_ok (e_file e) /\ e_msg e <> [] /\ no_nl (e_msg e) /\ kind_ok (e_kind e) /\
+  (0 <= e_line e)%Z /\ (0 <= e_col e)%Z /\
+  matcher (error_string e) <> Some (e_file e, decz (e_line e), decz (e_col e), e_msg e, e_kind e).
+Proof. exact matcher_roundtrip_full_refuted. Qed.
+Print Assumptions C16_matcher_roundtrip_full_refuted.
+
+(* %q (strconv.Quote) never emits a line feed *)
+Theorem C16_quote_no_nl : forall ip s, no_nl (quote ip s).
+Proof. exact quote_no_nl. Qed.
+Print Assumptions C16_quote_no_nl.
+
+(* a message formatted from one-line literals, %q of arbitrary text, %d and
+   %s/%v of one-line values is one line (partial: that the %s/%v arguments of
+   the real format sites are one-line is established by the harness, not proved) *)
+Theorem C16_messages_single_line_partial : forall ip ps,
+  Forall piece_safe ps -> no_nl (sprintf ip ps).
+Proof. exact messages_single_line. Qed.
+Print Assumptions C16_messages_single_line_partial.
